@@ -26,14 +26,14 @@ ASSUMPTIONS = ["numbers read from the release file are compared to 4e-16 relativ
                "a row exactly one step after the last simulated step but before a stop that is off the step grid is not judged"]
 TIERS = {"quick": dict(runs=1500, budget_s=50, shrink=150),
          "thorough": dict(runs=150000, budget_s=900, shrink=250)}
-REQUIRED_PROBES = ["missing_value_in_column", "column_with_configured_default", "continuous", "reversed", "row_at_stop", "row_before_start", "mult_zero", "names_in_config",
+REQUIRED_PROBES = ["missing_value_in_column", "column_with_configured_default", "both_position_pairs_in_file", "continuous", "reversed", "row_at_stop", "row_before_start", "mult_zero", "names_in_config",
                    "lonlat_release", "time_column", "continuous_first_before_start"]
 
 PROFILE = gen.profile(
     nsteps=(1, 24), p_reversed=0.3, p_land=0.3, p_subgrid=0.3, rows=(1, 12),
     mult=((1, 4), (2, 2), (0, 2), (3, 1), (4, 1)), p_late_rows=0.8, p_rows_outside=0.5, p_continuous=0.4,
     p_header=0.6, p_extra_float=0.5, p_extra_time=0.3, p_ibm=0.3, p_kills=0.5, p_lifetime=0.2,
-    cfl=(0.02, 0.3), p_numrec=0.2, p_dense=0.1, p_temp=0.2, N=(1, 3), p_lonlat_out=0.0,
+    cfl=(0.02, 0.3), p_numrec=0.2, p_dense=0.1, p_temp=0.2, N=(1, 3), p_lonlat_out=0.2,
     spacing=(1, 8), p_multifile=0.3, period=(1, 5), p_stop_extra=0.2,
 )
 
@@ -62,7 +62,17 @@ def generate(seed: int, tier: str, idx: int) -> dict:
         for k, r in enumerate(rel["rows"]):
             if s.chance(0.4) or k == 1:
                 r["fvar"] = None
-    if s.chance(0.25):
+    if "lon" in sc["output"].get("ivars", {}) and s.chance(0.6):
+        # the release file gives X, Y and, for information, a rounded longitude / latitude as well (these need lon and
+        # lat to be state variables, which the lon/lat output brings along): the grid position is the one that counts
+        from ladsim.oracles.c16 import xy_to_lonlat
+
+        rel["both_positions"] = True
+        rel.pop("col_order", None)
+        for r in rel["rows"]:
+            lon, lat = xy_to_lonlat(sc, np.array([r["X"]]), np.array([r["Y"]]))
+            r["lon"], r["lat"] = round(float(lon[0]), 1), round(float(lat[0]), 1)
+    elif s.chance(0.25):
         # positions given as longitude / latitude
         from ladsim.oracles.c16 import xy_to_lonlat
 
@@ -119,6 +129,8 @@ def execute(sc) -> Result:
             res.probes["lonlat_release"] += 1
         if any(c["type"] == "time" for c in rel.get("extra", [])):
             res.probes["time_column"] += 1
+        if rel.get("both_positions"):
+            res.probes["both_position_pairs_in_file"] += 1
         if any("state_default" in c for c in rel.get("extra", [])):
             res.probes["column_with_configured_default"] += 1
         if any(r.get("fvar", 0) is None for r in rel["rows"]):
